@@ -4,7 +4,39 @@ sys.path.insert(0, os.path.dirname(__file__))
 import e2e_common as E
 
 
+def component(ctx):
+    """issuer side at component level: LocalIds machine (MC), its behaviours replayed on the real LocalIdRegistry +
+    ConnectionIdMapper (cfg-guarded re-export), random call sequences, all validated by Trace_LocalIds"""
+    q = ctx.quick
+    for i, (limit, rotate, life) in enumerate([(2, "TRUE", 4)] if q else [(2, "TRUE", 4), (3, "FALSE", 4), (2, "TRUE", 0)]):
+        cfg = ctx.make_cfg("MC_LocalIds.cfg", "MC_LocalIds_run%d.cfg" % i,
+                           {"Limit": limit, "Rotate": rotate, "Lifetime": life, "MaxTime": 5 if q else 6, "MaxPn": 2 if q else 3})
+        ctx.mc("MC_LocalIds", cfg=cfg, workers=8, timeout=3000,
+               expect_actions=["Register", "Transmit", "Ack", "Lose", "PeerRetire", "HandshakeConfirmed", "Timeout"] if life else None)
+    hb = ctx.build("h-quic")
+    import C18
+    k = 0
+    for limit, rotate, life in ([(3, "TRUE", 5), (2, "FALSE", 4)] if q else [(3, "TRUE", 5), (2, "FALSE", 4), (2, "TRUE", 6), (4, "TRUE", 5), (3, "TRUE", 0)]):
+        cfg = ctx.make_cfg("Gen_LocalIds.cfg", "Gen_LocalIds_run%d.cfg" % k, {"Limit": limit, "Rotate": rotate, "Lifetime": life})
+        beh, n = ctx.gen("Gen_LocalIds", "gen_localids_%d.txt" % k, cfg=cfg, simulate=(60 if q else 600, 41))
+        tf = os.path.join(ctx.out, "cidreg-gen-%d.ndjson" % k)
+        r = ctx.harness(hb, ["cidreg-run", beh, tf])
+        os.remove(beh)
+        ctx.cov["stages"].append({"stage": "replay", "what": "LocalIds behaviours on the real LocalIdRegistry", **{x: v for x, v in r.items() if not x.startswith("_")}})
+        ctx.count(r["steps"])
+        for i, p in enumerate(C18.split(tf, 30000)):
+            ctx.trace("Trace_LocalIds", p, runs=r["runs"], label="cidreg-gen-%d-%d" % (k, i), timeout=1500)
+        k += 1
+    tf = os.path.join(ctx.out, "cidreg-random.ndjson")
+    r = ctx.harness(hb, ["cidreg-run", "random:%d:%d" % (300 if q else 4000, ctx.seed), tf])
+    ctx.cov["stages"].append({"stage": "record", "what": "LocalIdRegistry random call sequences", **{x: v for x, v in r.items() if not x.startswith("_")}})
+    for i, p in enumerate(C18.split(tf, 30000)):
+        ctx.trace("Trace_LocalIds", p, runs=r["runs"], label="cidreg-random-%d" % i, timeout=1500)
+    ctx.assume("component level (issuer side): one tick of the LocalIds machine = 15 s, RTT 5 s when its behaviours are replayed; every id has the generator's fixed lifetime (as connection::id::Generator provides), the peer is honest except for the two refused RETIRE forms; an id stays routable until the peer retired it or its announced lifetime ran out")
+
+
 def run(ctx):
+    component(ctx)
     traces = ctx.e2e(E.plan(ctx, [("cid", 8), ("cid_expiry", 10), ("lossy", 4), ("attack", 2)]))
     ctx.validate_families(traces, "Trace_ConnIds", E.CID_KINDS, only=E.CID_ONLY, primary_only=False)
     # routing: with migration / rebinding the data must still arrive at the right connection and unaltered
